@@ -1147,6 +1147,7 @@ def matching_cases(ctx, cases, want, rng):
 
 @prop("C18")
 def c18(ctx):
+    facts_tie(ctx)
     ctx.rule = CLI_RULE + (" For this property the table of header shapes (marker line, marker after a licence header, @generated in "
                            "the package comment, build tag + marker, six near-miss spellings, @generated in a detached comment, marker "
                            "after the package clause, a marker after the package clause that is followed by a line starting with 'package' inside a raw string or a comment, no header) is enumerated exhaustively against patches that do match the file body; "
@@ -1760,6 +1761,48 @@ def library_reuse_family(ctx, clause):
                 continue
             break
 
+# --- constants of the source read again on every run (a regenerated tie for numbers and strings that inputs rarely reach) ---
+FACTS = [
+    # (properties, what, Go file, regex with one group per value, Lean file, regex with the same groups)
+    (("C17",), "look-ahead of the list alignment", "internal/astdiff/diff.go", r"const lookahead = (\d+)",
+     "lean/GopatchModel/AstDiff.lean", r"def lookahead : Nat := (\d+)"),
+    (("C17",), "search budget of diff.Difference", "internal/diff/diff.go", r"searchBudget := (\d+) \* \(nx \+ ny\)",
+     "lean/GopatchModel/AstDiff.lean", r"budget := (\d+) \* \(nx \+ ny\)"),
+    (("C17",), "similarity threshold", "internal/diff/diff.go", r"return r\.NumSame\+(\d+) >= r\.NumDiff",
+     "lean/GopatchModel/AstDiff.lean", r"def Res\.similar \(r : Res\) : Bool := r\.same \+ (\d+) ≥ r\.diff"),
+    (("C17",), "penalty for values of different types", "internal/astdiff/diff.go", r"c\.NumDiff \+= (\d+) // not equal or similar",
+     "lean/GopatchModel/AstDiff.lean", r"if ty != to\.ty then \{ diff := (\d+) \}"),
+    (("C15",), "directories the walk skips", "main.go", r'base\[0\] == \'(.)\',\s*base\[0\] == \'(.)\',\s*base == "(\w+)",\s*base == "(\w+)":',
+     "lean/GopatchModel/Walk.lean", r"startsWithChar name '(.)' \|\| startsWithChar name '(.)' \|\|\s*name == \"(\w+)\" \|\| name == \"(\w+)\""),
+    (("C18",), "marker looked for in the package comment", "main.go", r'strings\.Contains\(comm\.Text, "([^"]+)"\)',
+     "lean/GopatchModel/Generated.lean", r'containsSub c\.text "([^"]+)"'),
+]
+
+def facts_tie(ctx):
+    """values the Lean model has in common with the source, read from both texts: a number or string the implementation was
+    changed to is reported even when no generated input happens to depend on it; a fact that can no longer be found in the
+    source (the code was reorganised) is only counted"""
+    for props_, what, gofile, gore, leanfile, leanre in FACTS:
+        if ctx.pid not in props_:
+            continue
+        try:
+            gsrc = open(os.path.join(REPO, gofile)).read()
+            lsrc = open(os.path.join(VERIF, leanfile)).read()
+        except OSError:
+            ctx.count("facts_unreadable")
+            continue
+        gm, lm = re.search(gore, gsrc), re.search(leanre, lsrc)
+        ctx.evaluations += 1
+        if lm is None:
+            ctx.broken("facts", f"the model's own constant for '{what}' was not found in {leanfile}")
+        elif gm is None:
+            ctx.count("facts_not_found_in_source")
+        elif gm.groups() != lm.groups():
+            ctx.count("facts_differ")
+            ctx.broken("correspondence", f"{what}: the source ({gofile}) has {gm.groups()}, the model ({leanfile}) has {lm.groups()}")
+        else:
+            ctx.count("facts_agree")
+
 # --- argument forms (shared by C12 and C14) ----------------------------------
 ARGFORM_TREE = {"a.go": "f", "sub": {"b.go": "f", ".hid": {"f.go": "f"}}, "testdata": {"c.go": "f", "cases": {"g.go": "f"}},
                 "vendor": {"dep": {"d.go": "f"}}, "_gen": {"e.go": "f"}, "notes.txt": "f"}
@@ -2145,6 +2188,7 @@ def all_paths(t, prefix=""):
 
 @prop("C15")
 def c15(ctx):
+    facts_tie(ctx)
     ctx.rule = ("directory trees (nesting up to 4; directory names incl. vendor, testdata, .git, _tmp, a.go, vendors; files incl. "
                 ".hidden.go, _under.go, non-.go names, symlinks to files and directories, dangling links, fifos) are created on disk; "
                 "argument lists mix '.', './...', sub-directories with and without '...', absolute paths, '../<cwd>/x', 'd/..', 'd/../...', explicit "
@@ -3667,6 +3711,7 @@ def c17(ctx):
     for inp, orig, impl, model, same in run_engine_batch(ctx, ["-inputs", os.path.join(dd, "in.jsonl")], "c17dec"):
         if impl["trace"] == model["trace"]:
             touched[inp["id"]] = model.get("touched", [])
+    facts_tie(ctx)
     c17_intervals_tie(ctx, jobs, touched)
     c17_astdiff_tie(ctx, jobs, ctx.extra.pop("_untouched_extents", {}))
     d = ctx.scratch("cc")
